@@ -268,9 +268,9 @@ EXPORT wchar_t *_wcstok_s_chk(wchar_t *restrict dest, rsize_t *restrict dmaxp,
     while (*dest != L'\0' && !ptoken) {
 
         if (unlikely(dlen == 0)) {
+            /* dest points behind the dmax elements here: nothing to store */
             *ptr = NULL;
             *dmaxp = 0;
-            *dest = L'\0';
             invoke_safe_str_constraint_handler("wcstok_s: dest is unterminated",
                                                (void *)orig_dest, ESUNTERM);
             errno = ESUNTERM;
@@ -326,9 +326,9 @@ EXPORT wchar_t *_wcstok_s_chk(wchar_t *restrict dest, rsize_t *restrict dmaxp,
     while (*dest != L'\0') {
 
         if (unlikely(dlen == 0)) {
+            /* dest points behind the dmax elements here: nothing to store */
             *ptr = NULL;
             *dmaxp = 0;
-            *dest = L'\0';
             invoke_safe_str_constraint_handler("wcstok_s: dest is unterminated",
                                                (void *)orig_dest, ESUNTERM);
             errno = ESUNTERM;
